@@ -304,6 +304,8 @@ pub fn run(out: &mut Out, tier: &str, rng: &mut Rng) {
         let fa: &[u8] = if ra { b"1" } else { b"0" }; let fb: &[u8] = if rb { b"1" } else { b"0" };
         out.case("li_matches", &[a.as_bytes(), b.as_bytes(), fa, fb], || li_matches(a.as_bytes(), b.as_bytes(), ra, rb));
     } } }
+    // the same product domain for the order (fields that order in opposite directions)
+    for a in dom.iter() { for b in dom.iter() { out.case("li_cmp", &[a.as_bytes(), b.as_bytes()], || li_cmp(a.as_bytes(), b.as_bytes())); } }
     for a in ["", "en", "fr", "und", "EN"] { for b in ["", "en", "fr", "UND"] { for f in 0..4u8 {
         let (ra, rb) = (f & 1 == 1, f & 2 == 2);
         let fa: &[u8] = if ra { b"1" } else { b"0" }; let fb: &[u8] = if rb { b"1" } else { b"0" };
